@@ -608,6 +608,16 @@ func (c *SpecCtx) call(x *ast.CallExpr) SVal {
 				fb = fv.wm0
 			}
 			return SVal{sx(">=", c.refOf(v), fb), tBool}
+		case "lastcalled":
+			// the path went through a call of the named function (and no loop head since)
+			fid, ok := x.Args[0].(*ast.Ident)
+			if !ok {
+				specFail("lastcalled needs a function name")
+			}
+			if rec := c.st.last[fid.Name]; rec != nil {
+				return SVal{rec.valid, tBool}
+			}
+			return SVal{"false", tBool}
 		case "lastresult", "lastarg", "atlast":
 			// ghost record of the most recent call of a function on this path (see lastCall)
 			fid, ok := x.Args[0].(*ast.Ident)
